@@ -136,7 +136,15 @@ def run(ctx):
         # ---- relabelling of the direction coordinate by +a
         for ia, a_ in enumerate(angles):
             # every other angle the new labels are reduced modulo 360 (the stored order then is no longer ascending)
-            rel = base.assign_coords(dir=(base.dir + a_) % 360.0 if ia % 2 else base.dir + a_)
+            newdir = (base.dir + a_) % 360.0 if ia % 2 else base.dir + a_
+            if ia % 3 == 2:
+                # the labels of an object whose statistics have ALREADY been read are reassigned in place (S['dir'] = ...): the relation
+                # is about the labels the object has now
+                rel = base.copy(deep=True)
+                stat_table(rel)
+                rel["dir"] = newdir.values
+            else:
+                rel = base.assign_coords(dir=newdir)
             t1 = stat_table(rel)
             for op in t0:
                 for i, v in enumerate(vs):
